@@ -51,6 +51,12 @@ type config struct {
 	// PolicyDefault: the default action of the recorded policy ("" / "allow", or "log": allowed and logged - to every probe the
 	// same as allow). What the flags do must not depend on what the policy says.
 	PolicyDefault string `json:"policy_default"`
+	// Overlap: while the recorded load is parked at the installation point (hook H2), another wired thread performs a complete
+	// load of ANOTHER policy with the flag word OverlapFlags (Loader!OtherLoad). The two calls share nothing: what the recorded
+	// load does to the threads depends on its own flags and policy (a refused thread-sync - the other thread has diverged - is
+	// an error: nothing to validate)
+	Overlap      bool   `json:"overlap"`
+	OverlapFlags uint32 `json:"overlap_flags"`
 	// Oversize: the recorded policy has several groups, each well inside the kernel's limit of 4096 instructions, that together
 	// exceed it; the probe syscall is denied by the LAST group. The kernel refuses such a program (an error: nothing is promised);
 	// a nil result is only admissible with the statement's coverage, whatever was done to make the policy fit
@@ -79,6 +85,7 @@ type output struct {
 	Error     string      `json:"error,omitempty"`
 	HookFlags *uint32     `json:"hook_flags"`
 	HookLen   int         `json:"hook_len"`
+	OtherErr  string      `json:"other_load_error,omitempty"`
 	Threads   []threadLog `json:"threads"`
 }
 
@@ -212,6 +219,20 @@ func main() {
 			os.Exit(3)
 		}
 	}
+	var helper chan func()
+	if cfg.Overlap {
+		helper = make(chan func())
+		hr := make(chan struct{})
+		go func() {
+			runtime.LockOSThread()
+			close(hr)
+			for f := range helper {
+				f()
+			}
+			select {}
+		}()
+		<-hr
+	}
 	time.Sleep(2 * time.Millisecond)
 
 	ll := newLog("loader", "loader")
@@ -258,9 +279,27 @@ func main() {
 			}
 		}
 		doProbe(ll)
+		parked := false
 		seccomp.VerifBeforeInstall = func(prog []syscall.SockFilter, flags seccomp.FilterFlag) {
+			if parked {
+				return // (the hook of the other thread's call)
+			}
 			f := uint32(flags)
 			out.HookFlags, out.HookLen = &f, len(prog)
+			if cfg.Overlap {
+				parked = true
+				done := make(chan struct{})
+				helper <- func() {
+					other := seccomp.Policy{DefaultAction: seccomp.ActionAllow,
+						Syscalls: []seccomp.SyscallGroup{{Action: seccomp.ActionErrno, Names: []string{probe.Syscalls[2].Name}}}}
+					if err := seccomp.LoadFilter(seccomp.Filter{NoNewPrivs: true, Flag: seccomp.FilterFlag(cfg.OverlapFlags), Policy: other}); err != nil {
+						out.OtherErr = err.Error()
+					}
+					close(done)
+				}
+				<-done
+				parked = false
+			}
 		}
 		err := seccomp.LoadFilter(seccomp.Filter{NoNewPrivs: !cfg.NoNNP, Flag: seccomp.FilterFlag(cfg.Flags), Policy: pol})
 		if err != nil {
